@@ -15,6 +15,9 @@ import (
 type Issue struct {
 	Class string
 	Msg   string
+	// Site names where the issue sits without input specific indexes: the format
+	// of the nearest format root and the name of the compound concerned.
+	Site string
 }
 
 func readerBits(br bitio.ReaderAtSeeker) ([]bool, error) {
@@ -96,13 +99,23 @@ func bufLenOf(v *decode.Value, topLen int64) (int64, error) {
 // topLen is the bit length of the input buffer.
 func CheckTree(root *decode.Value, topLen int64) []Issue {
 	var issues []Issue
+	var cur *decode.Value
 	add := func(class, f string, a ...any) {
 		if len(issues) < 20 {
-			issues = append(issues, Issue{class, fmt.Sprintf(f, a...)})
+			site := "?"
+			if cur != nil {
+				fr := cur.FormatRoot()
+				if fr != nil && fr.Format != nil {
+					site = fr.Format.Name
+				}
+				site += ":" + cur.Name
+			}
+			issues = append(issues, Issue{Class: class, Msg: fmt.Sprintf(f, a...), Site: site})
 		}
 	}
 	var walk func(v *decode.Value)
 	walk = func(v *decode.Value) {
+		cur = v
 		p := PathOf(v)
 		if v.Range.Len < 0 || v.Range.Start < 0 {
 			add("negative-range", "%s has range %v", p, v.Range)
@@ -180,6 +193,7 @@ func CheckTree(root *decode.Value, topLen int64) []Issue {
 		for _, ch := range c.Children {
 			walk(ch)
 		}
+		cur = v
 	}
 	walk(root)
 	return issues
@@ -322,7 +336,7 @@ func Coverage(rv *decode.Value, l int64) (field []int, gap []int, leafRanges [][
 		}
 		r := v.Range
 		if r.Start < 0 || r.Stop() > l || r.Len < 0 {
-			issues = append(issues, Issue{"leaf-outside-buffer", fmt.Sprintf("%s range %v outside buffer of %d bits", PathOf(v), r, l)})
+			issues = append(issues, Issue{Class: "leaf-outside-buffer", Msg: fmt.Sprintf("%s range %v outside buffer of %d bits", PathOf(v), r, l)})
 			return nil
 		}
 		if IsGap(v) {
